@@ -175,3 +175,20 @@ def sample_of(trace, n=6):
         if len(out) >= n:
             break
     return out
+
+
+def mc_model(rd, module, cfgname, invariants=None, workers=8, timeout=1800, expect_violation=False):
+    """Model-check one of the protocol models (WriteBehind / Recovery) with an invariant subset."""
+    import re as _re
+    src = open(os.path.join(v.SPEC, cfgname)).read()
+    if invariants:
+        src = _re.sub(r"INVARIANTS[^\n]*", "INVARIANTS TypeOK " + " ".join(invariants), src)
+    cfg = os.path.join(rd, "mc_" + cfgname)
+    open(cfg, "w").write(src)
+    r = v.run_tlc(module, cfg, rd, workers=workers, timeout=timeout, coverage=False, xmx="12g")
+    if expect_violation:
+        if not r.violation:
+            raise v.ToolError("%s/%s: the seeded model fault was not detected (model sanity)" % (module, cfgname))
+        return r
+    v.tlc_ok(r, "%s(%s)" % (module, cfgname))
+    return r
